@@ -7,7 +7,7 @@ EXTENDS Asn1Lax, Json
 AllShapes == DOMAIN Shapes
 \* quick instance: every shape, mode laxAncestor only with the tolerated malformations and a few others
 QuickAncestorDefects == LaxTolerated \cup {"emptyInteger", "nonMinimalLength", "printableIsNeither", "oidArcLeading80",
-                                            "genTimeFraction", "wrongTag"}
+                                            "genTimeFraction", "wrongTag"} \cup ClassDefects
 AllDefects == Defects
 
 Containers == {"struct", "seqof", "setof", "explicit", "optional"}
